@@ -1,5 +1,6 @@
 import GqlVerif.Props.C09
 import GqlVerif.Proofs.C09Options
+import GqlVerif.Proofs.C09Normalization
 open GqlVerif.C09
 #print axioms field_wire_indep
 #print axioms enum_wire_indep
@@ -18,3 +19,16 @@ open GqlVerif.C09
 #print axioms renderField_wire_invariant
 #print axioms input_wire_strings_invariant
 #print axioms variables_wire_strings_invariant
+-- module-level wire equality under `normalization` (Proofs/C09Norm*.lean)
+#print axioms GqlVerif.C09N.de_rename
+#print axioms GqlVerif.C09N.ser_rename
+#print axioms GqlVerif.C09N.roundtrip_rename
+#print axioms GqlVerif.C09N.normalization_only_renames
+#print axioms GqlVerif.C09N.normalization_same_error
+#print axioms GqlVerif.C09N.normalization_wire_invariant
+#print axioms GqlVerif.C09N.normalization_wire_invariant_of_names
+#print axioms GqlVerif.C09N.witness_variant_identifiers
+#print axioms GqlVerif.C09N.witness_type_name_injectivity
+#print axioms GqlVerif.C09N.witness_prelude_name
+#print axioms GqlVerif.C09N.witness_idStable
+#print axioms GqlVerif.C09N.witness_raw_reference
